@@ -31,6 +31,7 @@ void prop(const Case& cs) {
       VF_CHECK(std::memcmp(himg.data() + hdr, img[v].data(), img[v].size()) == 0, "header-image", who << ": bytes after the " << hdr << "-byte header differ from the image");
     }
     std::string obs = obj->observe();
+    const std::string fk = obj->finding_key();
     // bytes path: exact-size heap block so that ASan sees any over-read
     uint8_t* blk = static_cast<uint8_t*>(malloc(img[v].size() ? img[v].size() : 1));
     std::memcpy(blk, img[v].data(), img[v].size());
@@ -42,14 +43,14 @@ void prop(const Case& cs) {
     std::istringstream is(with_sentinel, std::ios::binary);
     fam::P r2 = obj->from_stream(is);
     VF_CHECK(is.good(), "stream-state", who << ": stream not good after deserialize");
-    VF_CHECK(static_cast<size_t>(is.tellg()) == simg.size(), "stream-consumed", who << ": stream reader stopped at " << is.tellg() << ", image ends at " << simg.size());
+    VF_CHECK_K(static_cast<size_t>(is.tellg()) == simg.size(), "stream-consumed", fk, who << ": stream reader stopped at " << is.tellg() << ", image ends at " << simg.size());
     // re-serialization before observing the restored objects
     fam::Bytes again = r1->bytes(0, v);
     std::string o1 = r1->observe(), o2 = r2->observe();
-    VF_CHECK(o1 == obs, "observe-bytes", who << ": restored-from-bytes sketch differs:\n  original: " << obs.substr(0, 700) << "\n  restored: " << o1.substr(0, 700));
-    VF_CHECK(o2 == obs, "observe-stream", who << ": restored-from-stream sketch differs:\n  original: " << obs.substr(0, 700) << "\n  restored: " << o2.substr(0, 700));
+    VF_CHECK_K(o1 == obs, "observe-bytes", fk, who << ": restored-from-bytes sketch differs:\n  original: " << obs.substr(0, 700) << "\n  restored: " << o1.substr(0, 700));
+    VF_CHECK_K(o2 == obs, "observe-stream", fk, who << ": restored-from-stream sketch differs:\n  original: " << obs.substr(0, 700) << "\n  restored: " << o2.substr(0, 700));
     if (again != img[v]) {
-      VF_CHECK(unordered && again.size() == img[v].size(), "reserialize", who << ": re-serialized image differs (" << again.size() << " vs " << img[v].size() << " bytes)");
+      VF_CHECK_K(unordered && again.size() == img[v].size(), "reserialize", fk, who << ": re-serialized image differs (" << again.size() << " vs " << img[v].size() << " bytes)");
       fam::P r3 = obj->from_bytes(again.data(), again.size());
       VF_CHECK(r3->observe() == obs, "reserialize-unordered", who << ": re-serialized image (unordered layout) decodes to a different sketch");
       vf::label("unordered-layout-reordered");
@@ -67,16 +68,18 @@ void prop(const Case& cs) {
     int v = static_cast<int>(cs.get("cv", 0) % nv);
     fam::P orig = fam::make(cs);
     fam::Bytes im = orig->bytes(0, v);
+    const bool order_free = orig->image_order_unspecified(v);
+    const std::string fk = orig->finding_key();
     fam::P r = orig->from_bytes(im.data(), im.size());
     uint64_t cseed = static_cast<uint64_t>(cs.get("cseed", 1));
     vf::own_randomness(cseed);
     for (const Op& op : suffix) orig->cont(op);
-    std::string a = orig->observe_coarse();
+    std::string a = order_free ? orig->observe_order_free() : orig->observe_coarse();
     vf::own_randomness(cseed);
     for (const Op& op : suffix) r->cont(op);
-    std::string b = r->observe_coarse();
-    VF_CHECK(a == b, "continue", fn << " variant " << v << ": after the same " << suffix.size() << " further ops the original and the restored sketch differ:\n  original: " << a.substr(0, 700) << "\n  restored: " << b.substr(0, 700));
-    vf::label("continued");
+    std::string b = order_free ? r->observe_order_free() : r->observe_coarse();
+    VF_CHECK_K(a == b, "continue", fk, fn << " variant " << v << ": after the same " << suffix.size() << " further ops the original and the restored sketch differ:\n  original: " << a.substr(0, 700) << "\n  restored: " << b.substr(0, 700));
+    vf::label("continued"); if (order_free) vf::label("continued-from-unordered-layout");
   }
   vf::label(std::string("family:") + fn);
   if (obj->beyond_exact()) vf::label("beyond-exact");
